@@ -28,8 +28,9 @@ CONSTANTS Cases,                      \* set of [req, raw, reply, cls]
           Dev_S4_ExtDataNoRecord,     \* 59 06 DTC status without a record number cannot be parsed
           Dev_S2_ClearDddiRaw         \* 2C 03 requests cannot be rebuilt -> RawRequest fallback
 
-VARIABLES cs, pc, preq, presp, decision
-vars == <<cs, pc, preq, presp, decision>>
+VARIABLES cs, pc, preq, presp, decision,
+          path      \* observation only: names of the actions taken (exported; action coverage)
+vars == <<cs, pc, preq, presp, decision, path>>
 
 ---------------------------------------------------------------------------
 DCodes       == ValidNrc              \* members of UDSErrorCodes
@@ -134,16 +135,18 @@ DMatches(req, r, kind) ==
 ---------------------------------------------------------------------------
 Init ==
   /\ cs \in Cases
-  /\ pc = "ParseRequest" /\ preq = "?" /\ presp = "?" /\ decision = "?"
+  /\ pc = "ParseRequest" /\ preq = "?" /\ presp = "?" /\ decision = "?" /\ path = << >>
 
 ParseRequest ==
   /\ pc = "ParseRequest"
+  /\ path' = Append(path, "ParseRequest")
   /\ preq' = IF DReqTyped(cs.req) THEN "Typed" ELSE "Raw"
   /\ pc' = "ParseResponse"
   /\ UNCHANGED <<cs, presp, decision>>
 
 ParseResponse ==
   /\ pc = "ParseResponse"
+  /\ path' = Append(path, "ParseResponse")
   /\ presp' = DParse(cs.reply)
   /\ pc' = IF presp' = "Exc"
            THEN (IF cs.reply[1] = NEG THEN "NegativeFallback" ELSE "PositiveFallback")
@@ -153,6 +156,7 @@ ParseResponse ==
 
 NegativeFallback ==
   /\ pc = "NegativeFallback"
+  /\ path' = Append(path, "NegativeFallback")
   /\ LET r == cs.reply
          foreign == IF Dev_S8_NegIndex
                     THEN Len(r) >= 3 /\ r[3] # cs.req[1]
@@ -163,27 +167,31 @@ NegativeFallback ==
 
 PositiveFallback ==
   /\ pc = "PositiveFallback"
+  /\ path' = Append(path, "PositiveFallback")
   /\ decision' = IF cs.reply[1] - 64 # cs.req[1] THEN "Mismatch" ELSE "Malformed"
   /\ pc' = "Done"
   /\ UNCHANGED <<cs, preq, presp>>
 
 RawRequestFallback ==
   /\ pc = "RawRequestFallback"
+  /\ path' = Append(path, "RawRequestFallback")
   /\ decision' = IF cs.reply[1] - 64 # cs.req[1] THEN "Mismatch" ELSE "Accept"
   /\ pc' = "Done"
   /\ UNCHANGED <<cs, preq, presp>>
 
 Matches ==
   /\ pc = "Matches"
+  /\ path' = Append(path, "Matches")
   /\ decision' = IF DMatches(cs.req, cs.reply, presp) THEN "Accept" ELSE "Mismatch"
   /\ pc' = "Done"
   /\ UNCHANGED <<cs, preq, presp>>
 
 Report ==
   /\ pc = "Done"
+  /\ path' = Append(path, "Report")
   /\ pc' = "Reported"
   /\ Export => PrintT(<<"D", cs.req, cs.raw, cs.reply, cs.cls, decision,
-                        Expected(cs.req, cs.raw, cs.reply), preq, presp>>)
+                        Expected(cs.req, cs.raw, cs.reply), preq, presp, path'>>)
   /\ UNCHANGED <<cs, preq, presp, decision>>
 
 Next == ParseRequest \/ ParseResponse \/ NegativeFallback \/ PositiveFallback
@@ -198,6 +206,7 @@ TypeOK ==
   /\ preq \in {"?", "Typed", "Raw"}
   /\ presp \in {"?", "Neg", "Typed", "RawPos", "Exc"}
   /\ decision \in Outcomes \cup {"?"}
+  /\ Len(path) <= 5
 
 Decided == pc \in {"Done", "Reported"}
 Holds(label) ==
